@@ -38,7 +38,7 @@ def required(tier):
     b = {f'residue:{k}': 1 for k in range(32)}
     b.update({'residue:0': 4, 'directio:on': 40, 'directio:off': 40, 'template:on': 20, 'template:off': 40, 'override-attempt': 30,
               'multi-file': 40, 'permutations>=2': 20, 'many-blocks-unpadded': 20, 're-recorded-same-stem': 50, 'reducer-header-skip': 30, 'user-key-begins-with-END': 20, 'sibling-stems-in-directory': 50, 'directio:string-zero': 20, 'empty-string-value': 10, 'blimpy-consulted': 50, 'aligned+directio': 3, 're-recorded-through-from_data:longer-than-input': 60,
-              're-recorded-through-from_data:user-card-clashes-with-inherited': 40, 'second-recording-same-backend': 40})
+              're-recorded-through-from_data:user-card-clashes-with-inherited': 40, 'second-recording-same-backend': 40, 're-recorded-onto-existing-files': 20})
     return {'buckets': b, 'counters': {'blocks_parsed': 500, 'reader_comparisons': 500, 'listing_orders_realised': 40},
             'checks': 3000, 'nontrivial': 100}
 
@@ -345,6 +345,21 @@ def _run(stg, raw_utils, c, cfg, tmp, R):
             except SystemExit:
                 R.violate('blimpy-rejects-file', file=fi)
     R.mark_nontrivial(len(all_blocks) >= 2)
+    # ---- the same layout recorded AGAIN onto the same stem, the earlier files still in place: every file is rewritten, none grows
+    if c['_idx'] % 4 == 3 and len(files) >= 2:
+        R.bucket('re-recorded-onto-existing-files')
+        rec3 = work_raw.do_record(stg, dict(cfg, seed=cfg['seed'] + 2), stem, header_dict={'DIRECTIO': 1 if dio else 0}, load_template=False)
+        try:
+            counts3 = [len(guppi.parse_file(f)) for f in rec3['files']]
+        except guppi.GuppiError as e:
+            counts3 = None
+            R.violate('framing:' + e.key + ':re-recorded-onto-existing-files', msg=str(e))
+        if counts3 is not None:
+            R.check(counts3 == [len(b) for b in per_file], 'blocks-per-file-distribution:re-recorded-onto-existing-files', got=counts3,
+                    want=[len(b) for b in per_file])
+            with common.quiet():
+                R.check(raw_utils.get_total_blocks(stem) == cfg['nblocks'], 'get_total_blocks:re-recorded-onto-existing-files',
+                        got=int(raw_utils.get_total_blocks(stem)), want=cfg['nblocks'])
     # ---- a second recording made with the SAME backend object: its blocks are distributed blocks-per-file at a time as well,
     # whatever the first recording's last file held
     if c['_idx'] % 4 == 1 and cfg['bpf'] >= 2:
